@@ -72,6 +72,11 @@ func Negotiator(addr jid.JID, secret []byte, recv bool) xmpp.Negotiator {
 		// logic from the xmpp package?
 	procloop:
 		for {
+			select {
+			case <-ctx.Done():
+				return mask, nil, nil, ctx.Err()
+			default:
+			}
 			tok, err := d.Token()
 			if err != nil {
 				return mask, nil, nil, err
@@ -124,6 +129,11 @@ func Negotiator(addr jid.JID, secret []byte, recv bool) xmpp.Negotiator {
 			return mask, nil, nil, err
 		}
 
+		select {
+		case <-ctx.Done():
+			return mask, nil, nil, ctx.Err()
+		default:
+		}
 		tok, err := d.Token()
 		if err != nil {
 			return mask, nil, nil, err
